@@ -136,3 +136,37 @@ Qed.
 
 Lemma fill_header_snd r h : snd (fill_header r h) = r + gen_header_height.
 Proof. destruct h as [[h1 h2] c]; reflexivity. Qed.
+
+(** ---------- from "the only write to the cell" to "the final content of the cell" (what the file holds) *)
+Lemma cell_key_inj r c r' c' : 0 <= c < 1024 -> 0 <= c' < 1024 -> cell_key r c = cell_key r' c' -> r = r' /\ c = c'.
+Proof. unfold cell_key. intros. lia. Qed.
+
+Lemma final_cells_get : forall ws (m : assoc payload) r c,
+  0 <= c < 1024 -> Forall (fun w => 0 <= cw_col w < 1024) ws ->
+  aget (cell_key r c) (fold_left (fun m w => aset (cell_key (cw_row w) (cw_col w)) (cw_val w) m) ws m)
+  = match rev (writes_at ws r c) with
+    | w :: _ => Some (cw_val w)
+    | [] => aget (cell_key r c) m
+    end.
+Proof.
+  induction ws as [|w t IH]; intros m r c Hc Hall; [reflexivity|].
+  inversion Hall as [|? ? Hw Ht]; subst. cbn [fold_left]. rewrite (IH _ r c Hc Ht).
+  unfold writes_at. cbn [filter]. fold (writes_at t r c).
+  destruct (at_cell r c w) eqn:E.
+  - cbn [rev]. unfold at_cell in E. apply andb_prop in E. destruct E as [E1 E2]. apply Z.eqb_eq in E1, E2.
+    destruct (rev (writes_at t r c)) as [|w' l]; cbn [app]; [|reflexivity].
+    rewrite E1, E2. apply aget_aset_same.
+  - destruct (rev (writes_at t r c)) as [|w' l]; [|reflexivity].
+    apply aget_aset_other. intro K. apply cell_key_inj in K; [|exact Hc|exact Hw]. destruct K as [K1 K2].
+    unfold at_cell in E. rewrite K1, K2, !Z.eqb_refl in E. discriminate.
+Qed.
+
+(** if exactly one write hits the cell, the cell finally holds its value *)
+Lemma cell_at_single ws r c w : 0 <= c < 1024 -> Forall (fun w => 0 <= cw_col w < 1024) ws ->
+  writes_at ws r c = [w] -> cell_at ws r c = cw_val w.
+Proof.
+  intros Hc Hall H. unfold cell_at, aget_d, final_cells. rewrite (final_cells_get ws [] r c Hc Hall). rewrite H. reflexivity.
+Qed.
+
+Lemma box_cols r0 r1 ws : box r0 r1 0 gen_full_max_columns ws -> Forall (fun w => 0 <= cw_col w < 1024) ws.
+Proof. unfold box. intro H. eapply Forall_impl; [|exact H]. simpl. intros a [_ Hb]. assert (gen_full_max_columns <= 1024) by (vm_compute; discriminate). lia. Qed.
